@@ -718,8 +718,8 @@ class Gen:
         for a in attrs:
             o.emit(a, None, tags, fnname)
         o.emit(sig_out.rstrip(), ("repo", src.rel, line_of(src.text, sig_start_line)), tags, fnname)
-        for (tl, tx) in contract:
-            o.emit(tx, ("tpl", rel_tpl, tl), self._clause_tags(tx, tags), fnname)
+        for (tl, tx, ctags) in self._contract_with_tags(contract, tags):
+            o.emit(tx, ("tpl", rel_tpl, tl), ctags, fnname)
         if body is None:
             o.emit(";", None, tags, fnname)
         elif stub:
@@ -860,8 +860,8 @@ class Gen:
         sig_name = re.search(r"fn\s+(\w+)", "\n".join(header)).group(1)
         tags = list(self.tags)
         gen_start = len(self.out.lines) + 1
-        for (tl, tx) in contract:
-            self.out.emit(tx, ("tpl", rel_tpl, tl), self._clause_tags(tx, tags), sig_name)
+        for (tl, tx, ctags) in self._contract_with_tags(contract, tags):
+            self.out.emit(tx, ("tpl", rel_tpl, tl), ctags, sig_name)
         ret = opts.get("ret")  # ret=<expr without spaces>: the segment reads only its parameters and yields this expression (no threaded variable)
         base_line = line_of(src.text, ob + 1 + s0)
         if loops or injects or rewrites:
@@ -904,6 +904,25 @@ class Gen:
         pre = " ".join(body[:segs[0][0]].split())
         post = " ".join(body[segs[-1][1]:].split())
         self.log.append(f"SEGMENTS of {rel}::{name}: {[s[2] for s in segs]} tile the body; prefix=`{pre[:200]}` suffix=`{post[:120]}` (sequential composition of the segment contracts is the assumed step)")
+
+    def _contract_with_tags(self, contract, tags):
+        """per-clause attribution: a `//# Cxx` mark at the END of a clause that spans several lines covers all of its lines (a clause ends with the
+        line whose code part ends in a comma; Verus reports a failed multi-line clause at its FIRST line)"""
+        out, group = [], []
+        for (tl, tx) in contract:
+            group.append((tl, tx))
+            code = re.sub(r"//.*$", "", tx).rstrip()
+            if code.endswith(",") or re.search(r"//#", tx) or not code.strip():
+                gt = None
+                for (_, t2) in group:
+                    if re.search(r"//#\s*([A-Z0-9 ,]+)\s*$", t2):
+                        gt = self._clause_tags(t2, tags)
+                for (l2, t2) in group:
+                    out.append((l2, t2, gt if gt is not None else self._clause_tags(t2, tags)))
+                group = []
+        for (l2, t2) in group:
+            out.append((l2, t2, self._clause_tags(t2, tags)))
+        return out
 
     @staticmethod
     def _clause_tags(tx, tags):
